@@ -146,6 +146,15 @@ def tail_integral_1d(nu, x):
     raise ValueError("tail integral at 0")
 
 
+def _u0plus(nu):
+    """U(0+) = nu((0, inf)): finite for finite activity, +inf otherwise (a closed form returning nan counts as infinite)."""
+    try:
+        v = float(nu.integrate(0.0, INF))
+    except Exception:  # noqa
+        return INF
+    return v if math.isfinite(v) else INF
+
+
 def ref_rectangle_mass(copula, nus, a, b):
     """Levy mass of prod (a_i, b_i] for a rectangle whose closure does not contain the origin.
 
@@ -162,12 +171,18 @@ def ref_rectangle_mass(copula, nus, a, b):
             neg = (tail_integral_1d(nu, ai) if ai != -INF else 0.0, -INF)
             pos = (INF, tail_integral_1d(nu, bi) if bi != INF else 0.0)
             pieces_per_axis.append([neg, pos])
-        elif bi <= 0:
+        elif bi < 0:
             ua = tail_integral_1d(nu, ai) if ai != -INF else 0.0
-            ub = tail_integral_1d(nu, bi) if bi != 0 else -INF
+            ub = tail_integral_1d(nu, bi)
             pieces_per_axis.append([(ua, ub)])
-        else:  # ai >= 0
-            ua = tail_integral_1d(nu, ai) if ai != 0 else INF
+        elif bi == 0:
+            # (a, 0] contains the hyperplane x_i = 0, which the copula represents by |u_i| beyond the total one-sided mass
+            # (u_i in [-inf, U(0-)] and [U(0+), +inf]); U(0+-) are infinite for infinite activity (second piece empty)
+            ua = tail_integral_1d(nu, ai) if ai != -INF else 0.0
+            u0p = _u0plus(nu)
+            pieces_per_axis.append([(ua, -INF), (INF, u0p)] if math.isfinite(u0p) else [(ua, -INF)])
+        else:  # ai >= 0: (a, b] with a >= 0 excludes the hyperplane; its image starts at U(a+) (finite at 0 for finite activity)
+            ua = tail_integral_1d(nu, ai) if ai != 0 else _u0plus(nu)
             ub = tail_integral_1d(nu, bi) if bi != INF else 0.0
             pieces_per_axis.append([(ua, ub)])
     total = 0.0
